@@ -1252,7 +1252,14 @@ JANET_CORE_FN(cfun_channel_choice,
      * scanning would leave the channels of the earlier clauses locked. */
     for (int32_t i = 0; i < argc; i++) {
         if (janet_indexed_view(argv[i], &data, &len) && len == 2) {
-            janet_getchannel(data, 0);
+            JanetChannel *chan = janet_getchannel(data, 0);
+            /* Also make sure the value can be packed: a failure later on would be raised
+             * while the channels of the other clauses are locked. */
+            Janet probe = data[1];
+            if (janet_chan_pack(chan, &probe)) {
+                janet_panicf("failed to pack value for channel: %v", probe);
+            }
+            janet_chan_unpack(chan, &probe, 1);
         } else {
             janet_getchannel(argv, i);
         }
